@@ -110,6 +110,7 @@ theorem bnFinish_ext (T : Tables) (acc rest l r more : List Nat) (h : bnFinish T
   repeat' split at h
   all_goals (try (simp at h; done))
   all_goals (simp only [R.ok.injEq] at h; obtain ⟨rfl, rfl⟩ := h; simp_all)
+  all_goals (intro hh; omega)
 
 theorem bnLoop_ext (T : Tables) (e e' : End) (inp acc l r more : List Nat)
     (h : bnLoop T e inp acc = .ok l r) : bnLoop T e' (inp ++ more) acc = .ok l (r ++ more) := by
@@ -156,13 +157,135 @@ theorem captureTerm_ext (T : Tables) (urlOk : List Nat → Bool) (e e' : End) (p
     simp only [List.cons_append, captureTerm]
     rw [if_neg hc, if_neg hb, if_pos hl]
     exact captureLiteral_ext T urlOk e e' _ _ _ more h hr
-  · next rest h1 h2 h3 ih =>
-    simp only [List.cons_append, captureTerm]
-    rw [if_neg h1, if_neg h2, if_neg h3, if_pos rfl]
-    exact ih h
   · next c rest h1 h2 h3 h4 h5 ih =>
     simp only [List.cons_append, captureTerm]
     rw [if_neg h1, if_neg h2, if_neg h3, if_neg h4, if_pos h5]
     exact ih h
+
+
+theorem afterObject_ext_none (T : Tables) (e e' : End) (b : Bool) (inp r more : List Nat)
+    (h : afterObject T e b inp = .ok none r) :
+    afterObject T e' b (inp ++ more) = .ok none (r ++ more) := by
+  fun_induction afterObject T e b inp
+  all_goals (try (simp at h; done))
+  all_goals (try (simp_all [afterObject]; done))
+
+theorem afterObject_ext_some (T : Tables) (e e' : End) (b : Bool) (inp x r more : List Nat)
+    (h : afterObject T e b inp = .ok (some x) r) :
+    ∃ x', afterObject T e' b (inp ++ more) = .ok (some x') (r ++ more) := by
+  fun_induction afterObject T e b inp
+  all_goals (try (simp at h; done))
+  all_goals (try (simp_all [afterObject]; done))
+  · next c rest h1 h2 h3 =>
+    simp only [R.ok.injEq] at h; obtain ⟨_, rfl⟩ := h
+    exact ⟨c :: rest ++ more, by simp [afterObject, h1, h2, h3]⟩
+
+theorem expectDot_ext (T : Tables) (e e' : End) (b : Bool) (inp r more : List Nat)
+    (h : expectDot T e b inp = .ok () r) :
+    expectDot T e' b (inp ++ more) = .ok () (r ++ more) := by
+  fun_induction expectDot T e b inp
+  all_goals (try (simp at h; done))
+  all_goals (try (simp_all [expectDot]; done))
+
+theorem skipToStmt_ext (T : Tables) (b : Bool) (inp r more : List Nat)
+    (h : skipToStmt T b inp = some r) : skipToStmt T b (inp ++ more) = some (r ++ more) := by
+  fun_induction skipToStmt T b inp
+  all_goals (try (simp at h; done))
+  all_goals (try (simp_all [skipToStmt]; done))
+  · next c rest h1 h2 =>
+    simp only [Option.some.injEq] at h; subst h
+    simp [skipToStmt, h1, h2]
+
+theorem toEOL_ext (T : Tables) (e e' : End) (b : Bool) (inp r more : List Nat)
+    (h : toEOL T e b inp = .start r) : toEOL T e' b (inp ++ more) = .start (r ++ more) := by
+  fun_induction toEOL T e b inp
+  all_goals (try (simp at h; done))
+  all_goals (try (simp_all [toEOL]; done))
+
+theorem captureTerm_ne {T : Tables} {urlOk : List Nat → Bool} {e : End} {pos : Pos} {b : Bool}
+    {inp : List Nat} {v : Term (List Nat)} {r : List Nat}
+    (h : captureTerm T urlOk e pos b inp = .ok v r) : inp ≠ [] := by
+  rintro rfl; simp [captureTerm] at h
+
+theorem afterObject_ne {T : Tables} {e : End} {b : Bool} {inp : List Nat} {v : Option (List Nat)}
+    {r : List Nat} (h : afterObject T e b inp = .ok v r) : inp ≠ [] := by
+  rintro rfl; simp [afterObject] at h
+
+theorem expectDot_ne {T : Tables} {e : End} {b : Bool} {inp : List Nat}
+    {r : List Nat} (h : expectDot T e b inp = .ok () r) : inp ≠ [] := by
+  rintro rfl; simp [expectDot] at h
+
+theorem statement_ext (T : Tables) (urlOk : List Nat → Bool) (e e' : End) (quads : Bool)
+    (inp rest more : List Nat) (q : Quad (List Nat))
+    (h : statement T urlOk e quads inp = .quad q rest) :
+    statement T urlOk e' quads (inp ++ more) = .quad q (rest ++ more) := by
+  obtain ⟨inp', s, r1, p, r2, o, r3, hsk, hs, hp, ho, hrest⟩ := statement_quad _ _ _ _ _ _ _ h
+  unfold statement
+  rw [skipToStmt_ext T _ _ _ more hsk]
+  simp only
+  rw [captureTerm_ext T urlOk e e' _ _ _ _ _ more hs (captureTerm_ne hp)]
+  simp only
+  rw [captureTerm_ext T urlOk e e' _ _ _ _ _ more hp (captureTerm_ne ho)]
+  simp only
+  rcases hrest with ⟨hq, ha, rfl⟩ | ⟨hq, x, r4, g, r5, ha, hg, hd, rfl⟩ | ⟨hq, hd, rfl⟩
+  · rw [captureTerm_ext T urlOk e e' _ _ _ _ _ more ho (afterObject_ne ha)]
+    simp only [hq, if_true]
+    rw [afterObject_ext_none T e e' _ _ _ more ha]
+  · rw [captureTerm_ext T urlOk e e' _ _ _ _ _ more ho (afterObject_ne ha)]
+    simp only [hq, if_true]
+    obtain ⟨x', hx'⟩ := afterObject_ext_some T e e' _ _ _ _ more ha
+    rw [hx']
+    simp only
+    rw [captureTerm_ext T urlOk e e' _ _ _ _ _ more hg (expectDot_ne hd)]
+    simp only
+    rw [expectDot_ext T e e' _ _ _ more hd]
+  · rw [captureTerm_ext T urlOk e e' _ _ _ _ _ more ho (expectDot_ne hd)]
+    simp only [hq, Bool.false_eq_true, if_false]
+    rw [expectDot_ext T e e' _ _ _ more hd]
+
+theorem next_extend (T : Tables) (urlOk : List Nat → Bool) (e e' : End) (quads started : Bool)
+    (inp rest more : List Nat) (q : Quad (List Nat))
+    (h : next T urlOk e quads started inp = .quad q rest) :
+    next T urlOk e' quads started (inp ++ more) = .quad q (rest ++ more) := by
+  unfold next at h ⊢
+  split at h
+  · next hst =>
+    rw [if_pos hst]
+    split at h
+    · simp at h
+    · simp at h
+    · next r ht =>
+      rw [toEOL_ext T e e' _ _ _ more ht]
+      exact statement_ext T urlOk e e' quads _ _ more q h
+  · next hst =>
+    rw [if_neg hst]
+    exact statement_ext T urlOk e e' quads _ _ more q h
+
+theorem runFuel_prefix (T : Tables) (urlOk : List Nat → Bool) (e e' : End) (quads : Bool)
+    (more : List Nat) :
+    ∀ (fuel fuel' : Nat) (started : Bool) (p : List Nat), (p ++ more).length + 1 ≤ fuel' →
+      (runFuel T urlOk e quads fuel started p).1 <+:
+        (runFuel T urlOk e' quads fuel' started (p ++ more)).1 := by
+  intro fuel
+  induction fuel with
+  | zero => intro _ _ _ _; simp [runFuel]
+  | succ f ih =>
+    intro fuel' started p hf
+    obtain ⟨f', rfl⟩ : ∃ f', fuel' = f' + 1 := ⟨fuel' - 1, by omega⟩
+    rw [runFuel]
+    split
+    · simp
+    · simp
+    · next q rest hn =>
+      have hsh := next_shrinks _ _ _ _ _ _ _ _ hn
+      rw [runFuel, next_extend T urlOk e e' quads started p rest more q hn]
+      simp only
+      have := ih f' true rest (by simp only [List.length_append] at hf ⊢; omega)
+      exact List.prefix_cons_inj q |>.2 this
+
+theorem prefix_monotone (T : Tables) (urlOk : List Nat → Bool) (e e' : End) (quads : Bool)
+    (p more : List Nat) :
+    (run T urlOk e quads p).1 <+: (run T urlOk e' quads (p ++ more)).1 :=
+  runFuel_prefix T urlOk e e' quads more _ _ false p (Nat.le_refl _)
 
 end RdfModel.Proofs.C05NQ
